@@ -110,6 +110,8 @@ type Fault struct {
 	Class string `json:"class,omitempty"`
 	K     int    `json:"k,omitempty"`
 	Kind  string `json:"kind"` // errno | short | panic
+	// Errno selects the error of an errno fault: "" = EIO, "EACCES", "EMFILE", "ENOSPC", "EROFS".
+	Errno string `json:"errno,omitempty"`
 }
 
 // Class returns the event class of a traced event.
@@ -256,6 +258,16 @@ func (c *Ctl) Install() {
 				}
 				return syscall.EIO
 			default:
+				switch f.Errno {
+				case "EACCES":
+					return syscall.EACCES
+				case "EMFILE":
+					return syscall.EMFILE
+				case "ENOSPC":
+					return syscall.ENOSPC
+				case "EROFS":
+					return syscall.EROFS
+				}
 				return syscall.EIO
 			}
 		}
